@@ -601,6 +601,16 @@ class Config:
         c2 = self.contract_for(path, key, f)
         if c2 is not None:
             return self.apply_contract(path, c2, f, args, kwargs)
+        # contract kwarg `stubs={callable: Callback}` also replaces a repo function outside the kernel
+        # (e.g. the crypto toolbox) by a recorded callback, like it does for library functions
+        stubs = getattr(self.top, 'extra', {}).get('stubs')
+        if stubs and f.native is not None and f.closure is None:
+            try:
+                cb = stubs.get(f.native)
+            except TypeError:
+                cb = None
+            if cb is not None:
+                return path.call(self.fresh(path, cb, cb.name), args, kwargs, node)
         if self.may_inline(key, f):
             path.inlined.add(key)
             return path.run_func(f, args, kwargs)
